@@ -120,6 +120,7 @@ fn location_menu() -> Vec<Option<&'static str>> {
         Some("http://a b/"),
         Some("ftp://h.test/"),
         Some("mailto:x"),
+        Some("http://usr:pw@d.test:8081/u?z=1"),
     ]
 }
 
@@ -446,6 +447,55 @@ fn non_http_locations(ctx: &Ctx) -> u64 {
     n
 }
 
+/// A prepared request sent twice: every send() starts from the prepared URL with a fresh redirect
+/// count; the second exchange is the first one over again.
+fn prepared_twice(ctx: &Ctx) -> u64 {
+    let menu = response_menu();
+    let mut n = 0;
+    for start in ["http://a.test/d1/d2/f?x=1", "http://a.test"] {
+        for max in [0u32, 1, 2] {
+            for first in &menu {
+                for second in [&menu[0], &menu[menu.len() - 12]] {
+                    n += 1;
+                    let chain = vec![first.clone(), second.clone()];
+                    let mut p = attohttpc::get(start).max_redirections(max).prepare();
+                    let url_before = p.url().as_str().to_string();
+                    let (h1, f1) = run_chain(&chain, || p.send());
+                    let (h2, f2) = run_chain(&chain, || p.send());
+                    let show = |h: &Vec<HopObs>, f: &Final| {
+                        format!(
+                            "{:?} -> {}",
+                            h.iter().map(|x| format!("{}:{} {}", x.dial_host, x.dial_port, String::from_utf8_lossy(&x.written).lines().next().unwrap_or("").to_string())).collect::<Vec<_>>(),
+                            match f {
+                                Final::Ok { status, url, .. } => format!("Ok({status} from {url})"),
+                                other => format!("{other:?}"),
+                            }
+                        )
+                    };
+                    let same = h1.len() == h2.len()
+                        && h1.iter().zip(h2.iter()).all(|(a, b)| a.dial_host == b.dial_host && a.dial_port == b.dial_port && a.written == b.written)
+                        && show(&h1, &f1) == show(&h2, &f2);
+                    if !same || p.url().as_str() != url_before {
+                        ctx.violation(
+                            "C09:second-send-differs",
+                            format!(
+                                "prepared GET {start} (max_redirections {max}) against responses {:?}: first send {}; second send {}; prepared URL afterwards {}",
+                                chain.iter().map(|r| (r.status, r.location.clone())).collect::<Vec<_>>(),
+                                show(&h1, &f1),
+                                show(&h2, &f2),
+                                p.url()
+                            ),
+                            json!({"engine": "c09", "prepared_twice": true}),
+                            n,
+                        );
+                    }
+                }
+            }
+        }
+    }
+    n
+}
+
 pub fn c09(ctx: &Ctx) -> Report {
     let starts: Vec<&str> = match ctx.tier {
         Tier::Quick => vec!["http://a.test/d1/d2/f?x=1", "http://a.test"],
@@ -468,6 +518,9 @@ pub fn c09(ctx: &Ctx) -> Report {
     }
     let n_non_http = non_http_locations(ctx);
     ctx.count("non_http_location_cases", n_non_http);
+    let n_twice = prepared_twice(ctx);
+    ctx.count("prepared_request_sent_twice_cases", n_twice);
+    ex += 2 * n_twice;
     let menu = response_menu();
     ctx.sample(json!({"response_menu_size": menu.len(), "first": menu[0], "last": menu[menu.len()-1]}));
     ctx.sample(json!({"case": Case09{start: starts[0].to_string(), max: 2, follow: true, responses: vec![menu[30].clone(), menu[50].clone(), menu[0].clone()]}}));
@@ -481,7 +534,7 @@ pub fn c09(ctx: &Ctx) -> Report {
     rep.set("response_menu", menu.len() as u64);
     rep.set(
         "rule",
-        format!("breadth-first search over redirect worlds: a state is (URL of the next request, redirects taken) as computed by the RFC 3986 reference; every state is expanded with every response of a {}-response menu (statuses 200/404/300/301/302/303/304/305/306/307/308/399 x 17 Location forms); each transition is a full send() of the real client against a scripted world that replays the path; chains and cycles up to max_redirections+2 for max in {:?}, follow on/off, 2 start URLs; a state is distinct when its (URL, count) pair is new", menu.len(), maxes),
+        format!("breadth-first search over redirect worlds: a state is (URL of the next request, redirects taken) as computed by the RFC 3986 reference; every state is expanded with every response of a {}-response menu (statuses 200/404/300/301/302/303/304/305/306/307/308/399 x 18 Location forms); each transition is a full send() of the real client against a scripted world that replays the path; chains and cycles up to max_redirections+2 for max in {:?}, follow on/off, 2 start URLs; a state is distinct when its (URL, count) pair is new; plus non-http Locations with an authority against a real listener, and every 2-response world run twice from one prepared request (the second send() is the first one over again)", menu.len(), maxes),
     );
     rep.assume("an empty Location may either fail or be followed to the base URL (RFC 3986 same-document reference); non-http schemes and unparsable targets may fail with any error kind");
     rep.assume("Location forms on which WHATWG URL parsing and RFC 3986 legitimately differ (backslashes, tabs, 'http:relative') and https targets are outside the menu");
@@ -494,6 +547,15 @@ pub fn replay09(v: &serde_json::Value) -> i32 {
         let ctx = Ctx::new("C09", Tier::Quick);
         non_http_locations(&ctx);
         return if ctx.n_violation_classes() > 0 { 1 } else { 0 };
+    }
+    if v["case"]["prepared_twice"] == true {
+        let ctx = Ctx::new("C09", Tier::Quick);
+        prepared_twice(&ctx);
+        let vs = ctx.drain_violations();
+        for (v, n) in &vs {
+            println!("{}: {} ({n} cases)", v.signature, v.what);
+        }
+        return if vs.is_empty() { 0 } else { 1 };
     }
     let c: Case09 = serde_json::from_value(v["case"]["case"].clone()).expect("case");
     let (viol, cont, outcome) = check09(&c);
@@ -551,9 +613,23 @@ pub enum Change {
     BackToStart,
     /// an http URL on port 443 (the https default: must appear in Host)
     Port443,
+    /// a URL carrying credentials (they belong neither in Host nor in the target)
+    WithUserinfo,
+    /// a relative reference ending in a fragment (which is never sent)
+    WithFragment,
 }
 
-const CHANGES: [Change; 7] = [Change::SamePath, Change::OtherPath, Change::OtherHost, Change::OtherPort, Change::ToBypassedHost, Change::BackToStart, Change::Port443];
+const CHANGES: [Change; 9] = [
+    Change::SamePath,
+    Change::OtherPath,
+    Change::OtherHost,
+    Change::OtherPort,
+    Change::ToBypassedHost,
+    Change::BackToStart,
+    Change::Port443,
+    Change::WithUserinfo,
+    Change::WithFragment,
+];
 
 #[derive(Clone, Debug, Serialize, Deserialize)]
 pub struct Case10 {
@@ -588,6 +664,8 @@ fn location_for(ch: Change) -> &'static str {
         Change::ToBypassedHost => "http://sub.direct.test/d",
         Change::BackToStart => "http://start.test/s",
         Change::Port443 => "http://shop.test:443/s",
+        Change::WithUserinfo => "http://usr:pw@cred.test/c",
+        Change::WithFragment => "/frag?y=2#sec",
     }
 }
 
@@ -828,7 +906,7 @@ pub fn c10(ctx: &Ctx) -> Report {
     rep.set("chain_length_bound", max_len as u64);
     rep.set(
         "rule",
-        format!("full product: {} body kinds x {{POST, PUT}} x {{no proxy, http proxy with a no_proxy entry}} x every chain of 1..{} hops over 7 hop changes (same URL, other path, other host, other port, host bypassing the proxy, back to start, an http URL on port 443) x statuses (all five uniformly, two mixed patterns); every hop's bytes are parsed back as one well-formed request; each case is a distinct chain", BODYKS.len(), max_len),
+        format!("full product: {} body kinds x {{POST, PUT}} x {{no proxy, http proxy with a no_proxy entry}} x every chain of 1..{} hops over 9 hop changes (same URL, other path, other host, other port, host bypassing the proxy, back to start, an http URL on port 443, a URL with credentials, a reference with a fragment) x statuses (all five uniformly, two mixed patterns); every hop's bytes are parsed back as one well-formed request; each case is a distinct chain", BODYKS.len(), max_len),
     );
     rep.assume("plain-http hops through a proxy are checked for connection target and absolute-form target; their Host value is not constrained by the property");
     rep.assume("http->https hops are exercised by the TLS lab part of C08/C12, not here");
